@@ -8,6 +8,8 @@ package main
 // Nothing here decides a verdict: events are validated by TLC.
 
 import (
+	"encoding/hex"
+	"crypto/sha1"
 	"errors"
 	"strings"
 	"bufio"
@@ -417,6 +419,12 @@ func TestVerifApps(t *testing.T) {
 			fin, _ := g.snapshot()
 			ev["final_equal_ref"] = bytes.Equal(fin, refBytes)
 			enc.Encode(ev)
+		case "c11x":
+			// what the complete output for this input is (computed from the stream handler, not from the application), for
+			// comparison with what the BUILT program has written by the time it exits
+			want := expectedOutput(os.Getenv("VERIF_APP"), in)
+			sum := sha1.Sum(want)
+			enc.Encode(vEvent{"ev": "c11x", "id": c.ID, "want_len": len(want), "want_sha": hex.EncodeToString(sum[:])})
 		case "c10":
 			dir := t.TempDir()
 			cfg := &jsonconfig.Config{DisplayMessages: c.Display, RecordMessages: c.Record, MessageLogDirectory: dir}
